@@ -430,12 +430,74 @@ fn run_many(v: &[u64]) {
     }
 }
 
+// C10 for columns of coded regions: merge_regions over sources of different widths, in any order
+// args: order (0: [narrow, wide], 1: [wide, narrow], 2: [narrow, wide, narrow], 3: [wide]), codec (0 Huffman, 1 dictionary)
+fn pre_ccm(v: &[u64]) -> bool {
+    v[0] < 4 && v[1] < 2
+}
+fn doms_ccm() -> Vec<Vec<u64>> {
+    vec![range(4), range(2)]
+}
+fn run_ccm(v: &[u64]) {
+    use flatcontainer::ColumnsRegion;
+    if v[1] == 0 {
+        type R = ColumnsRegion<HuffmanContainer<u8>>;
+        let c0: &[u8] = &[1, 2, 2, 1];
+        let c1: &[u8] = &[5, 6, 6, 6];
+        let mut narrow = R::default();
+        let _ = narrow.push(vec![c0.to_vec()]);
+        let mut wide = R::default();
+        let _ = wide.push(vec![c0.to_vec(), c1.to_vec()]);
+        let m = match v[0] {
+            0 => R::merge_regions([&narrow, &wide].into_iter()),
+            1 => R::merge_regions([&wide, &narrow].into_iter()),
+            2 => R::merge_regions([&narrow, &wide, &narrow].into_iter()),
+            _ => R::merge_regions([&wide].into_iter()),
+        };
+        let mut m = m;
+        // every symbol pushed occurs in the statistics of some source for that column: must be accepted and read back
+        let i0 = m.push(vec![c0.to_vec(), c1.to_vec()]);
+        let i1 = m.push(vec![vec![2u8, 1], vec![6u8, 5, 5]]);
+        vassert!(i0 == 0 && i1 == 1, "VF:columns_coded.merge_index");
+        let r0 = m.index(i0);
+        let r1 = m.index(i1);
+        vassert!(r0.len() == 2 && r1.len() == 2, "VF:columns_coded.merge_len");
+        vassert!(r0.get(0).into_owned() == c0 && r0.get(1).into_owned() == c1, "VF:columns_coded.merge_read");
+        vassert!(r1.get(0).into_owned() == [2u8, 1] && r1.get(1).into_owned() == [6u8, 5, 5], "VF:columns_coded.merge_read");
+    } else {
+        type R = ColumnsRegion<CR>;
+        let a: &[u8] = b"abc";
+        let b: &[u8] = &[0, 7];
+        let mut narrow = R::default();
+        for _ in 0..4 {
+            let _ = narrow.push(vec![a]);
+        }
+        let mut wide = R::default();
+        for _ in 0..4 {
+            let _ = wide.push(vec![a, b]);
+        }
+        let mut m = match v[0] {
+            0 => R::merge_regions([&narrow, &wide].into_iter()),
+            1 => R::merge_regions([&wide, &narrow].into_iter()),
+            2 => R::merge_regions([&narrow, &wide, &narrow].into_iter()),
+            _ => R::merge_regions([&wide].into_iter()),
+        };
+        // `b` starts with byte 0, which column 1's sources have seen as a first byte: it must stay representable
+        let i0 = m.push(vec![a, b]);
+        vassert!(i0 == 0, "VF:columns_coded.merge_index");
+        let r0 = m.index(i0);
+        vassert!(r0.len() == 2 && r0.get(0) == a && r0.get(1) == b, "VF:columns_coded.merge_read");
+    }
+}
+
 pub fn harnesses() -> Vec<H> {
     vec![
         H { name: "huffman_quick", props: &["C06", "C01", "C02", "C08", "C10"], nargs: 6, pre: pre_huff, doms: doms_huff_quick, run: run_huff, panic_ok: false,
             bound: "16 frequency profiles (1..4 symbols with counts 1..4, Fibonacci 10/16/21 symbols, 257/600 equiprobable u16) x all pairs of 12 item shapes (empty .. 24 symbols; every start/end bit offset; 0,1,2+ whole bytes) + third item in {empty, 8 symbols} x 1-2 merge generations x symbol outside the statistics", kani: false },
         H { name: "huffman_full", props: &["C06"], nargs: 6, pre: pre_huff, doms: doms_huff, run: run_huff, panic_ok: false,
             bound: "all 340 profiles over alphabets of 1..4 symbols with counts 1..4, Fibonacci-skewed 10..21 symbols (codes to 20 bits), 257/300/600 equiprobable u16 symbols x all pairs of 12 item shapes x third item in {empty, 8, 17 symbols} x 1-2 merge generations x outsider symbol (thorough tier)", kani: false },
+        H { name: "columns_coded_merge", props: &["C10"], nargs: 2, pre: pre_ccm, doms: doms_ccm, run: run_ccm, panic_ok: false,
+            bound: "ColumnsRegion<HuffmanContainer<u8>> and ColumnsRegion<CodecRegion<DictionaryCodec>>: merge_regions over a one-column and a two-column source in the orders [narrow, wide], [wide, narrow], [narrow, wide, narrow], [wide]; rows covered by the sources' statistics must be accepted and read back", kani: false },
         H { name: "huffman_wrapped", props: &["C14", "C15"], nargs: 4, pre: pre_wrapped, doms: doms_wrapped, run: run_wrapped, panic_ok: false,
             bound: "Wrapped items, raw versus Huffman-encoded, 7 profiles x all pairs of 12 item shapes x 4 clone_onto targets: ==, partial_cmp, cmp against the owned vectors; into_owned / clone_onto / borrow_as; region-to-region push", kani: false },
         H { name: "huffman_forms", props: &["C20"], nargs: 2, pre: pre_hforms, doms: doms_hforms, run: run_hforms, panic_ok: false,
